@@ -25,7 +25,7 @@ NOT_C02 = {"R.cred-type", "R.bs-without-be", "R.tb-not-supported", "R.at-clear-d
 HARNESS_FAULTS = ["X.origin-is-proper-prefix-of-expected", "X.origin-is-infix-of-expected", "X.alg-not-allowed",
                   "X.alg-unregistered-not-allowed", "X.uv-clear-required-up-waived", "X.origin-list-lacks-it",
                   "X.expected-origin-has-trailing-slash", "X.expected-origin-has-surrounding-space",
-                  "X.expected-origin-ipv6-literal-read-as-glob", "X.expected-origin-star-read-as-glob", "X.expected-origin-qmark-read-as-glob"]
+                  "X.alg-list-empty", "X.alg-list-empty-tuple", "X.expected-origin-ipv6-literal-read-as-glob", "X.expected-origin-star-read-as-glob", "X.expected-origin-qmark-read-as-glob"]
 
 
 def work(tasks, idx):
@@ -78,6 +78,10 @@ def work(tasks, idx):
             over["origin"] = " " + req.origin if variant % 2 else [req.origin + " "]
         if "X.alg-not-allowed" in xs or "X.alg-unregistered-not-allowed" in xs:
             over["algs"] = [a for a in cases.ALL_ALGS if a != choice[2]][: 3 + variant % 5]
+        if "X.alg-list-empty" in xs:
+            over["algs"] = []                 # the RP allows no algorithm at all: nothing can be accepted
+        if "X.alg-list-empty-tuple" in xs:
+            over["algs"] = ()
         if "X.uv-clear-required-up-waived" in xs:
             over["require_up"], over["require_uv"] = False, True
         e = _reg.expectation(req, r.roots, **over)
